@@ -99,7 +99,7 @@ def run_one(res, spec, opts_name=""):
 
 
 def blind_names(spec, d):
-    """Rename 1-3 designer signals / ports onto names the elaborator is going to invent in that module for instance-related
+    """Rename 1-3 designer signals / ports / instances onto names the elaborator is going to invent in that module for instance-related
     objects (<inst>_<port> implicit signals, <array>_<k> elements, <pair>_p / _n), without looking at what it does invent.
     Renaming designer objects consistently leaves the circuit unchanged."""
     import copy
@@ -130,6 +130,12 @@ def blind_names(spec, d):
             continue
         new = d.choice(cands) + d.choice(["", "", "_"])
         if new in designer_names(m):
+            continue
+        others = [i2["name"] for i2 in m["insts"] if not new.startswith(i2["name"] + "_")]
+        if others and d.bool(30):
+            # ... or another instance (array, pair) is what carries the invented-looking name
+            rename(s, mi, "inst", d.choice(others), new)
+            done += 1
             continue
         ports = [sg[0] for sg in m["sigs"] if sg[2] != "sig"]
         old = d.choice(ports) if ports and d.bool(50) else d.choice([sg[0] for sg in m["sigs"]])
